@@ -26,7 +26,11 @@ import (
 
 const (
 	defaultMaxCacheTtl = time.Hour * 6
-	prefetchTimeout    = time.Second * 6
+	// The memory cache backend computes expire times as uint32 seconds since
+	// the process started. Lifetimes near 2^32 seconds wrap and the entry is
+	// born expired.
+	maxCacheTtlLimit = time.Hour * 24 * 365 * 10
+	prefetchTimeout  = time.Second * 6
 )
 
 func (r *router) initCache(cfg *CacheConfig) (*cacheCtl, error) {
@@ -35,6 +39,9 @@ func (r *router) initCache(cfg *CacheConfig) (*cacheCtl, error) {
 	c.maximumTtl = time.Duration(cfg.MaximumTTL) * time.Second
 	if c.maximumTtl <= 0 {
 		c.maximumTtl = defaultMaxCacheTtl
+	}
+	if c.maximumTtl > maxCacheTtlLimit {
+		c.maximumTtl = maxCacheTtlLimit
 	}
 
 	// init memory cache if configured
